@@ -609,3 +609,19 @@ def expand(row):
     for i, b in row["sd"]:
         s[i] = b
     return v, dict(sig=row["sig"], taken=row["taken"], regs=row["regs"], flags=row["flags"], data=bytes(d), stack=bytes(s))
+
+
+def self_test():
+    """the Python mirror of the executor's page contents and register passing agrees with the executor (a NOP leaves
+    everything as given); a mismatch is a harness error, never a finding"""
+    regs = [(0x0123456789ABCDEF * (k + 1)) & M64 for k in range(16)]
+    regs[4] = STACK
+    for salt, stk0, poke in ((5, None, None), (0x1F2E3, 0x1122334455667788, (0x10, 0xCAFEBABE12345678))):
+        v = dict(code="90", regs=regs, flags=0x202 | CF | ZF, salt=salt, tgt=0, stk0=stk0, poke=poke, meta=dict(name="NOP", opsize=8, kind="none", ia32=False))
+        r = run_native([v])[0]
+        assert r is not None and r["sig"] == 0 and r["taken"] == 0, r and r["sig"]
+        assert r["regs"] == regs, "register passing"
+        assert r["flags"] & STATUS == CF | ZF, hex(r["flags"])
+        assert r["data"] == data_bytes(salt, poke), "data page mirror"
+        assert r["stack"] == stack_bytes(salt, stk0), "stack page mirror"
+    return True
